@@ -10,6 +10,7 @@ package main
 
 import (
 	"bytes"
+	"reflect"
 	"encoding/binary"
 	"encoding/json"
 	"errors"
@@ -186,8 +187,49 @@ func (c call) coq() string {
 	return "GetRange " + coqPoint(c.P) + " " + coqPoint(c.E)
 }
 
+// the optional callbacks of blockfetch.Config (zero value = BlockFunc + BatchDoneFunc, the
+// configuration every earlier scenario used)
+type cfgT struct {
+	NoBlock bool `json:"no_block"` // BlockFunc nil
+	Raw     bool `json:"raw"`      // BlockRawFunc set
+	NoDone  bool `json:"no_done"`  // BatchDoneFunc nil
+}
+
+func (g cfgT) hasBlockCb() bool { return !g.NoBlock || g.Raw }
+func (g cfgT) coq() string {
+	return fmt.Sprintf("{| cfg_block := %s; cfg_raw := %s; cfg_done := %s |}", vh.Bool(!g.NoBlock), vh.Bool(g.Raw), vh.Bool(!g.NoDone))
+}
+
+// does this block message end the protocol in callback (range) mode?
+func (g cfgT) blockKills(m string) bool {
+	if g.NoBlock && !g.Raw {
+		return true // "no callback function is defined"
+	}
+	return m == "BX" && !g.NoBlock // decode error; BlockRawFunc alone never decodes
+}
+
 type scenario struct {
 	Prog []call `json:"prog"`
+	Cfg  cfgT   `json:"cfg"`
+}
+
+// knownConfigFields: every field of blockfetch.Config must be classified here; a new
+// optional callback (func / pointer / interface field) is reported until it is.
+var knownConfigFields = map[string]string{
+	"BlockFunc": "scenario cfg", "BlockRawFunc": "scenario cfg", "BatchDoneFunc": "scenario cfg",
+	"RequestRangeFunc": "server side", "Pipeline": "block pipeline: not covered by C23 (see notes)",
+	"BatchStartTimeout": "value", "BlockTimeout": "value", "RecvQueueSize": "value", "SkipBlockValidation": "value",
+}
+
+func checkConfigFields(c *vh.Ctx) {
+	t := reflect.TypeOf(blockfetch.Config{})
+	for i := 0; i < t.NumField(); i++ {
+		f := t.Field(i)
+		if _, ok := knownConfigFields[f.Name]; !ok {
+			c.Res.Violate("correspondence", "config-new-field:"+f.Name,
+				fmt.Sprintf("blockfetch.Config has a field %s (%s) that the C23 scenarios do not enumerate: the model's config record must be extended", f.Name, f.Type), nil)
+		}
+	}
 }
 
 type outcome struct {
@@ -261,21 +303,45 @@ func runScenario(sc scenario) (out outcome) {
 		}
 	}
 	cur := 0
+	slow := func() {
+		if cur < len(sc.Prog) && sc.Prog[cur].SlowCb > 0 {
+			time.Sleep(time.Duration(sc.Prog[cur].SlowCb) * 100 * time.Microsecond)
+		}
+	}
 	cfg := blockfetch.Config{
-		BlockFunc: func(ctx blockfetch.CallbackContext, typ uint, b ledger.Block) error {
-			if cur < len(sc.Prog) && sc.Prog[cur].SlowCb > 0 {
-				time.Sleep(time.Duration(sc.Prog[cur].SlowCb) * 100 * time.Microsecond)
-			}
-			lg.Add("cbblock %d %s", b.SlotNumber(), vh.Hex(b.Hash().Bytes()))
-			return nil
-		},
-		BatchDoneFunc: func(ctx blockfetch.CallbackContext) error {
-			lg.Add("cbdone")
-			return nil
-		},
 		BatchStartTimeout: time.Second,
 		BlockTimeout:      time.Second,
 		RecvQueueSize:     blockfetch.DefaultRecvQueueSize,
+	}
+	if !sc.Cfg.NoBlock {
+		cfg.BlockFunc = func(ctx blockfetch.CallbackContext, typ uint, b ledger.Block) error {
+			slow()
+			if sc.Cfg.Raw {
+				lg.Add("#unexpected BlockFunc although BlockRawFunc is set")
+			}
+			lg.Add("cbblock %d %s", b.SlotNumber(), vh.Hex(b.Hash().Bytes()))
+			return nil
+		}
+	}
+	if sc.Cfg.Raw {
+		cfg.BlockRawFunc = func(ctx blockfetch.CallbackContext, typ uint, raw []byte) error {
+			slow()
+			// identify the block by its bytes (the raw callback gets no decoded block)
+			for _, f := range fixtures {
+				if f.Type == typ && bytes.Equal(f.Raw, raw) {
+					lg.Add("cbblock %d %s", f.Slot, f.Hash)
+					return nil
+				}
+			}
+			lg.Add("cbblock 0 -")
+			return nil
+		}
+	}
+	if !sc.Cfg.NoDone {
+		cfg.BatchDoneFunc = func(ctx blockfetch.CallbackContext) error {
+			lg.Add("cbdone")
+			return nil
+		}
 	}
 	oConn, err := ouroboros.New(
 		ouroboros.WithConnection(p.Client),
@@ -326,8 +392,8 @@ func runScenario(sc scenario) (out outcome) {
 			for _, g := range peer.Stacks("blockfetch.(*Client)") {
 				// keep the head of each relevant stack: state + top frames
 				lines := strings.Split(g, "\n")
-				if len(lines) > 7 {
-					lines = lines[:7]
+				if len(lines) > 14 {
+					lines = lines[:14]
 				}
 				out.Evidence = append(out.Evidence, strings.Join(lines, " | "))
 			}
@@ -339,10 +405,12 @@ func runScenario(sc scenario) (out outcome) {
 			// is not a block, plus the BatchDone if it ends the batch regularly
 			for _, m := range c.Reply[1:] {
 				if m == "BD" {
-					expectedCb++
+					if !sc.Cfg.NoDone {
+						expectedCb++
+					}
 					break
 				}
-				if m == "BX" || !strings.HasPrefix(m, "B") {
+				if !strings.HasPrefix(m, "B") || sc.Cfg.blockKills(m) {
 					break
 				}
 				expectedCb++
@@ -459,6 +527,12 @@ func monitor(c *vh.Ctx, sc scenario, out outcome) {
 			}
 		}
 		key := "call-not-returned-" + cl.Class
+		for _, e := range out.Evidence {
+			if strings.Contains(e, "acquireBusy") && strings.Contains(e, "Mutex.Lock") {
+				// the caller waits for the busy token and no handler is running: the previous range never released it
+				key = "busy-never-released-after-range"
+			}
+		}
 		if blockedCaller && blockedHandler {
 			switch cl.Class {
 			case "gb-nobatch":
@@ -469,7 +543,7 @@ func monitor(c *vh.Ctx, sc scenario, out outcome) {
 				key = "hang-" + cl.Class
 			}
 		}
-		c.Res.Violate("monitor", key, fmt.Sprintf("call %d (%s, reply %v) had not returned after %s; caller blocked on channel: %v, handler blocked on channel: %v (goroutine dump in replay); the pinned-tree model has this stuck state (C23_single_total_refuted_*)",
+		c.Res.Violate("monitor", key, fmt.Sprintf("call %d (%s, reply %v) had not returned after %s; caller blocked on channel: %v, handler blocked on channel: %v (goroutine dump in replay; for the two GetBlock hang keys the pinned-tree model has the stuck state: C23_single_total_refuted_*)",
 			out.HangCall, cl.Kind, cl.Reply, hangBound, blockedCaller, blockedHandler), rep)
 		return
 	}
@@ -481,6 +555,9 @@ func monitor(c *vh.Ctx, sc scenario, out outcome) {
 		case "gb-violation", "gr-violation", "gb-undecodable", "gr-undecodable", "gb-stall", "gr-stall":
 			conformingOnly = false
 		}
+	}
+	if !sc.Cfg.hasBlockCb() {
+		conformingOnly = false // the first block of a range ends the protocol: only the core checks and the model judge it
 	}
 	for i, cl := range sc.Prog {
 		if i >= len(out.Results) {
@@ -547,7 +624,7 @@ func monitor(c *vh.Ctx, sc scenario, out outcome) {
 				dead = true
 			}
 			for _, m := range cl.Reply {
-				if m == "BX" || cl.Stall {
+				if cl.Stall || (strings.HasPrefix(m, "B") && m != "BD" && sc.Cfg.blockKills(m)) {
 					dead = true
 				}
 			}
@@ -571,12 +648,18 @@ func monitor(c *vh.Ctx, sc scenario, out outcome) {
 		}
 		for _, m := range cl.Reply[1:] {
 			if m == "BD" {
-				wantCb = append(wantCb, "cbdone")
+				if !sc.Cfg.NoDone {
+					wantCb = append(wantCb, "cbdone")
+				}
 				break
 			}
-			if m == "BX" || !strings.HasPrefix(m, "B") {
+			if !strings.HasPrefix(m, "B") || sc.Cfg.blockKills(m) {
 				stop = true
 				break
+			}
+			if m == "BX" {
+				wantCb = append(wantCb, "cbblock 0 -")
+				continue
 			}
 			f := fixtures[int(m[1]-'0')]
 			wantCb = append(wantCb, fmt.Sprintf("cbblock %d %s", f.Slot, f.Hash))
@@ -595,7 +678,7 @@ func monitor(c *vh.Ctx, sc scenario, out outcome) {
 		c.Res.Violate("monitor", "range-callbacks-differ", fmt.Sprintf("callback sequence %v, served %v", gotCb, wantCb), rep)
 	}
 	// busy: the request after a range goes on the wire only after that range's BatchDone callback
-	if conformingOnly {
+	if conformingOnly && !sc.Cfg.NoDone {
 		done := 0
 		for _, e := range out.Events {
 			f := strings.Fields(e)
@@ -622,6 +705,7 @@ func monitor(c *vh.Ctx, sc scenario, out outcome) {
 // ---- generator ----------------------------------------------------------------
 
 var skipClass = map[string]bool{}
+var hungCfg = map[cfgT]bool{} // configurations whose follow-up call hung in this run (paid once)
 var cbTimedOut bool
 
 func genCall(r *vh.Rng, forceClass string) call {
@@ -713,6 +797,32 @@ func genCall(r *vh.Rng, forceClass string) call {
 
 func isSlow(c call) bool { return c.Stall }
 
+// every scenario ends with a conforming GetBlock on the same client: whatever happened before,
+// it must return within the hang bound (with the block, or with an error if the protocol died)
+func withFollowup(r *vh.Rng, sc scenario) scenario {
+	f := genCall(r, "gb-ok")
+	f.Class = "gb-followup"
+	sc.Prog = append(sc.Prog, f)
+	return sc
+}
+
+// the client configuration is part of the scenario
+func genCfg(r *vh.Rng) cfgT {
+	g := cfgT{NoDone: r.Intn(3) == 0}
+	switch r.Intn(8) {
+	case 0, 1:
+		g.Raw = true // both callbacks: the raw one is called, the block is still decoded
+	case 2, 3:
+		g.Raw, g.NoBlock = true, true // raw only: never decodes
+	case 4:
+		g.NoBlock = true // neither: the first block of a range is an error
+	}
+	if hungCfg[g] {
+		return cfgT{}
+	}
+	return g
+}
+
 // ---- Coq case ----------------------------------------------------------------
 
 func coqCase(sc scenario, out outcome) string {
@@ -741,7 +851,11 @@ func coqCase(sc scenario, out outcome) string {
 		case "cbblock":
 			var slot uint64
 			fmt.Sscan(f[1], &slot)
-			obs = append(obs, "LCbBlock "+coqBlk(slot, vh.UnHex(f[2])))
+			if f[2] == "-" {
+				obs = append(obs, "LCbBlock rawnone") // BlockRawFunc was handed bytes that are no fixture
+			} else {
+				obs = append(obs, "LCbBlock "+coqBlk(slot, vh.UnHex(f[2])))
+			}
 		case "cbdone":
 			obs = append(obs, "LCbDone")
 		case "ret":
@@ -763,8 +877,8 @@ func coqCase(sc scenario, out outcome) string {
 			obs = append(obs, "LRet ("+sc.Prog[i].coq()+") "+r)
 		}
 	}
-	return fmt.Sprintf("{| c_prog := %s; c_script := %s; c_obs := %s; c_hung := %s |}",
-		vh.List(prog), vh.List(script), vh.List(obs), vh.Bool(out.Hung))
+	return fmt.Sprintf("{| c_cfg := %s; c_prog := %s; c_script := %s; c_obs := %s; c_hung := %s |}",
+		sc.Cfg.coq(), vh.List(prog), vh.List(script), vh.List(obs), vh.Bool(out.Hung))
 }
 
 func runOne(c *vh.Ctx, cf *vh.CaseFile, sc scenario) {
@@ -775,7 +889,7 @@ func runOne(c *vh.Ctx, cf *vh.CaseFile, sc scenario) {
 	nontrivial := false
 	for _, cl := range sc.Prog {
 		classes = append(classes, cl.Class)
-		if cl.Class != "gb-ok" {
+		if cl.Class != "gb-ok" && cl.Class != "gb-followup" {
 			nontrivial = true
 		}
 	}
@@ -788,7 +902,11 @@ func runOne(c *vh.Ctx, cf *vh.CaseFile, sc scenario) {
 	}
 	if out.Hung {
 		// do not pay the hang bound again for the same shape in this run
-		skipClass[sc.Prog[out.HangCall].Class] = true
+		if sc.Prog[out.HangCall].Class == "gb-followup" {
+			hungCfg[sc.Cfg] = true
+		} else {
+			skipClass[sc.Prog[out.HangCall].Class] = true
+		}
 	}
 	monitor(c, sc, out)
 	hasOther := false
@@ -817,12 +935,13 @@ func run(c *vh.Ctx) error {
 			return fmt.Errorf("fixture %s: Cbor() differs", f.Name)
 		}
 	}
-	c.Res.Rule = "concurrent-callers class: one connection, 4 goroutines each making 1-2 GetBlock/GetBlockRange calls at once on the same client, every call with its own points and its own reply blocks (the scripted peer answers a request by its points), slow callbacks, 60 s timers so that no verdict depends on timing; sequential classes: a scenario = one connection, a program of 1-4 GetBlock/GetBlockRange calls, one scripted server reply per request from 18 classes (conforming single block of 7 eras, NoBlocks, StartBatch+BatchDone, non-matching hash, right hash wrong slot, 2-4 blocks, undecodable block, state-machine violations, stalls, ranges of 0-6 real blocks with slow callbacks); distinct by the JSON of the scenario; non-trivial = any call other than a conforming single GetBlock"
+	c.Res.Rule = "concurrent-callers class: one connection, 4 goroutines each making 1-2 GetBlock/GetBlockRange calls at once on the same client, every call with its own points and its own reply blocks (the scripted peer answers a request by its points), slow callbacks, 60 s timers so that no verdict depends on timing; sequential classes: a scenario = one connection, a client configuration (BlockFunc / BlockRawFunc / BatchDoneFunc each present or absent; blockfetch.Config is enumerated by reflection), a program of 1-4 GetBlock/GetBlockRange calls followed by a conforming follow-up GetBlock that must return, one scripted server reply per request from 18 classes (conforming single block of 7 eras, NoBlocks, StartBatch+BatchDone, non-matching hash, right hash wrong slot, 2-4 blocks, undecodable block, state-machine violations, stalls, ranges of 0-6 real blocks with slow callbacks); distinct by the JSON of the scenario; non-trivial = any call other than a conforming single GetBlock"
 	c.Res.Modelled = []string{
 		"the protocol engine (protocol.go) is abstracted in the LTS: agency-gated FIFO delivery, handler error = stop, doneChan closes only after recvLoop returns (engine itself: C11-C13)",
-		"user callbacks return nil and terminate; BlockFunc is configured (no BlockRawFunc, no pipeline)",
+		"user callbacks return nil and terminate; the optional callbacks BlockFunc / BlockRawFunc / BatchDoneFunc are part of the scenario (all 8 combinations); config.Pipeline is not covered",
 		"Client.Start/Stop lifecycle is not part of the model",
 	}
+	checkConfigFields(c)
 	cf := c.NewCaseFile("c23", header())
 	cf.SetShardSize(60)
 	if c.Replay != "" {
@@ -858,14 +977,20 @@ func run(c *vh.Ctx) error {
 	// regression corpus first: the three probes of DESIGN.md section 7
 	conway := fixtures[6]
 	zero := pt{12345, strings.Repeat("00", 32)}
-	runOne(c, cf, scenario{[]call{{Kind: "GB", P: zero, Reply: []string{"SB", "B6", "BD"}, Class: "gb-mismatch"}}})
-	runOne(c, cf, scenario{[]call{{Kind: "GB", P: pt{conway.Slot, conway.Hash}, Reply: []string{"SB", "BD"}, Class: "gb-nobatch"}}})
-	runOne(c, cf, scenario{[]call{{Kind: "GB", P: pt{conway.Slot, conway.Hash}, Reply: []string{"SB", "B6", "B5", "BD"}, Class: "gb-multi"}}})
+	runOne(c, cf, scenario{Prog: []call{{Kind: "GB", P: zero, Reply: []string{"SB", "B6", "BD"}, Class: "gb-mismatch"}}})
+	runOne(c, cf, scenario{Prog: []call{{Kind: "GB", P: pt{conway.Slot, conway.Hash}, Reply: []string{"SB", "BD"}, Class: "gb-nobatch"}}})
+	runOne(c, cf, scenario{Prog: []call{{Kind: "GB", P: pt{conway.Slot, conway.Hash}, Reply: []string{"SB", "B6", "B5", "BD"}, Class: "gb-multi"}}})
 	// every class alone, then followed by a conforming call (is the client still usable?)
 	for _, cl := range []string{"gb-ok", "gb-notfound", "gb-nobatch", "gb-mismatch", "gb-mismatch-slot", "gb-multi", "gb-undecodable",
 		"gb-violation", "gr-ok", "gr-notfound", "gr-empty", "gr-undecodable", "gr-violation"} {
-		runOne(c, cf, scenario{[]call{genCall(c.Rng, cl)}})
-		runOne(c, cf, scenario{[]call{genCall(c.Rng, cl), genCall(c.Rng, "gb-ok"), genCall(c.Rng, "gr-ok")}})
+		runOne(c, cf, scenario{Prog: []call{genCall(c.Rng, cl)}})
+		runOne(c, cf, withFollowup(c.Rng, scenario{Prog: []call{genCall(c.Rng, cl), genCall(c.Rng, "gb-ok"), genCall(c.Rng, "gr-ok")}}))
+	}
+	// every configuration of the optional callbacks: a range, a second range, a GetBlock, then the follow-up
+	for _, g := range []cfgT{{NoDone: true}, {Raw: true}, {Raw: true, NoBlock: true}, {Raw: true, NoBlock: true, NoDone: true},
+		{Raw: true, NoDone: true}, {NoBlock: true}, {NoBlock: true, NoDone: true}} {
+		runOne(c, cf, withFollowup(c.Rng, scenario{Cfg: g, Prog: []call{genCall(c.Rng, "gr-ok"), genCall(c.Rng, "gr-ok"), genCall(c.Rng, "gb-ok")}}))
+		runOne(c, cf, withFollowup(c.Rng, scenario{Cfg: g, Prog: []call{genCall(c.Rng, "gr-undecodable"), genCall(c.Rng, "gr-empty")}}))
 	}
 	n := c.Pick(160, 1500)
 	stalls := 0
@@ -884,7 +1009,8 @@ func run(c *vh.Ctx) error {
 			}
 			sc.Prog = append(sc.Prog, cl)
 		}
-		runOne(c, cf, sc)
+		sc.Cfg = genCfg(c.Rng)
+		runOne(c, cf, withFollowup(c.Rng, sc))
 	}
 	cf.Flush()
 	// concurrent callers: 4 goroutines x mixed GetBlock / GetBlockRange on one client
